@@ -39,7 +39,27 @@ def scenario_indirect_via_second_call():
     return {"violated": "A" not in cascade, "cascade": cascade, "scenario": "A = [Call B, Call C], C = [Call A]: indirect self call through the second call"}
 
 
-ALL = [scenario_self_call_as_second_call, scenario_cycle_among_other_macros, scenario_indirect_via_second_call]
+def scenario_self_call_nested_in_block_watch_alarm():
+    out = []
+    for title, src, must_find in [
+            ("self call inside a Block of the macro body", "Macro: A\n    Mark: a\n    Block: X\n        Call macro: A\n        End block\n", True),
+            ("self call inside a Watch of the macro body", "Macro: A\n    Mark: a\n    Watch: Run Counter > 0\n        Call macro: A\n", True),
+            ("indirect self call through calls nested in a Block and an Alarm",
+             "Macro: A\n    Block: X\n        Call macro: B\n        End block\nMacro: B\n    Alarm: Run Counter > 0\n        Call macro: A\n", True),
+            ("two levels deep", "Macro: A\n    Block: X\n        Watch: Run Counter > 0\n            Call macro: A\n        End block\n", True),
+            ("a nested macro DEFINITION that calls A is not a call made by A", "Macro: A\n    Macro: B\n        Call macro: A\n    Mark: a\n", False)]:
+        macros = _macros(src)
+        try:
+            cascade = macros["A"].macro_calling_macro(macros)
+        except RecursionError:
+            return {"violated": True, "observation": "RecursionError", "scenario": title}
+        if ("A" in cascade) != must_find:
+            return {"violated": True, "scenario": title, "method": src, "cascade": cascade, "self_call_expected_to_be_found": must_find}
+        out.append((title, cascade))
+    return {"violated": False, "scenarios": out}
+
+
+ALL = [scenario_self_call_nested_in_block_watch_alarm, scenario_self_call_as_second_call, scenario_cycle_among_other_macros, scenario_indirect_via_second_call]
 if __name__ == "__main__":
     for s in ALL:
         print(s.__name__, s())
